@@ -17,6 +17,7 @@ Not decided: equality with the published fits evaluated on the shipped tables, s
 import math
 
 from .. import cfg as C
+from . import c18_fit
 from .. import tables as T
 from ..astdb import AnalysisBroken, where
 
@@ -396,10 +397,26 @@ def run(chk, prog):
                         env[("l", d["id"])] = SM("0+", "const")       # table entry (assumed non-negative)
                     else:
                         env[("l", d["id"])] = sq_eval(init, env)
+            elif k == "Bin" and s["op"] == "=" and C.strip_casts(s["a"]).get("k") == "Ref" and \
+                    C.strip_casts(s["a"]).get("dk") in ("Var", "ParmVar"):
+                rhs = C.strip_casts(s["b"])
+                if rhs.get("k") in ("Idx",) or (rhs.get("k") == "Call" and rhs.get("op") == "[]"):
+                    env[("l", C.strip_casts(s["a"])["id"])] = SM("0+", "const")
+                else:
+                    env[("l", C.strip_casts(s["a"])["id"])] = sq_eval(rhs, env)
             elif k == "If":
-                sign_of_returns([s["th"]], dict(env))
+                e1, e2 = dict(env), dict(env)
+                sign_of_returns([s["th"]], e1)
                 if s.get("el") is not None:
-                    sign_of_returns([s["el"]], dict(env))
+                    sign_of_returns([s["el"]], e2)
+                for key in set(e1) | set(e2):
+                    a, b = e1.get(key), e2.get(key)
+                    if a is not None and b is not None and a.s == b.s:
+                        env[key] = a if a.m == b.m else SM(a.s, "?")
+                    elif a is not None and b is not None and {a.s, b.s} <= {"+", "0+", "0"}:
+                        env[key] = SM("0+", "?")
+                    else:
+                        env[key] = SM("?", "?")
             elif k == "Return" and s.get("x") is not None:
                 e = C.strip_casts(s["x"])
                 v = sq_eval(e, env)
@@ -432,7 +449,14 @@ def run(chk, prog):
             return env[("l", e["id"])]
         if e.get("k") in ("Float", "Int"):
             return sm_eval(e, env)
-        return SM("?", "?")
+        if e.get("k") == "Un" and e.get("op") == "-":
+            a = sq_eval(e["x"], env)
+            return SM("-" if a.s == "+" else "?", "?")
+        raise AnalysisBroken("get_cross_section_verner: the sign analysis does not understand `%s` (line %s)" %
+                             (C.pretty(e)[:80], e.get("l")))
     env0 = {("l", epar[0]["id"]): SM("0+", "inc")}
     sign_of_returns(top[top.index(first_if) + 1:] if first_if is not None else top, env0)
     chk.floor("Q5", n5, 5)
+    # ---- Q6: the evaluated fit is the published one ---------------------------------------------------
+    n6 = c18_fit.rule_Q6(chk, prog)
+    chk.floor("Q6", n6, 3)
